@@ -13,7 +13,8 @@ fallback for the values of deck entries.  Log.logStreak formats with `fmt % (ele
 Statement: "For ANY history of share writes and logger runs, 'once' writes one record, 'always' one per logger run".
 A minimal repair is `text = '\\t%s' % (value,)` in both fallbacks (and `fmt % (value,)` in the first attempt).
 
-Run: PYTHONPATH=/repo /venv/bin/python findings/c22_tuple_value_typeerror.py -> exit 1 while present."""
+Run: PYTHONPATH=/repo /venv/bin/python findings/c22_tuple_value_typeerror.py -> exit 1 while present.
+REPAIRED in /repo by 0f66a3c (both fallbacks are now `'\\t%s' % (value,)`): exits 0 on the repaired tree."""
 import collections.abc, io, sys  # noqa
 from ioflo.base import storing, logging
 
